@@ -189,12 +189,15 @@ end arith
 section diag
 variable {K : Type} [Zero K] [One K] [Inv K] [DecidableEq K]
 
-/-- `backend::diagonal(A, invert)` (builtin.hpp:752-773): the FIRST stored entry with `col == i`; the vector is
-allocated uninitialised (`numa_vector(n, false)`), so a row without a diagonal entry leaves `none` (= garbage). -/
+/-- `backend::diagonal(A, invert)` (builtin.hpp:752-777): the FIRST stored entry with `col == i`.  The vector is
+allocated uninitialised (`numa_vector(n, false)`); since fix baae926 every entry is first set to the value of an
+absent (zero) diagonal — `0`, resp. the identity for the inverted diagonal — so the result is total (before it, a row
+without a diagonal entry kept heap garbage; the element type is still `Option` so that "never written" stays
+expressible: `C10.diagonal_always_defined`). -/
 def diagonal (A : CRS K) (invert : Bool) : Array (Option K) :=
   Array.ofFn (n := A.nrows) (fun i =>
     match (A.row i).find? (fun cv => cv.1 = i.val) with
-    | none => none
+    | none => some (if invert then 1 else 0)
     | some cv => some (if invert then (if cv.2 = 0 then 1 else cv.2⁻¹) else cv.2))
 
 end diag
